@@ -98,11 +98,15 @@ fn read_only_set(fx: &Fx, thread: &str, router: Option<&axum::Router>, full: boo
             probe(format!("compaction_status_v1({t:?},stride={s:?})"), fx);
             let _ = store.compaction_auto_v1(t, CompactionAutoV1Request { stride_messages: *s, max_new_checkpoints: Some(2), dry_run: Some(true), actor_id: "u".into(), origin: "o".into() });
             probe(format!("compaction_auto_v1({t:?},stride={s:?},dry_run=true)"), fx);
-            let _ = store.compaction_auto_schedule_v1(
-                t,
-                CompactionAutoScheduleV1Request { stride_messages: *s, max_new_checkpoints: Some(2), block_on_inflight: Some(true), execute: Some(true), dry_run: Some(true), actor_id: "u".into(), origin: "o".into() },
-            );
-            probe(format!("compaction_auto_schedule_v1({t:?},stride={s:?},dry_run=true)"), fx);
+            for block in [Some(true), Some(false), None] {
+                for execute in [Some(true), Some(false)] {
+                    let _ = store.compaction_auto_schedule_v1(
+                        t,
+                        CompactionAutoScheduleV1Request { stride_messages: *s, max_new_checkpoints: Some(2), block_on_inflight: block, execute, dry_run: Some(true), actor_id: "u".into(), origin: "o".into() },
+                    );
+                    probe(format!("compaction_auto_schedule_v1({t:?},stride={s:?},block_on_inflight={block:?},execute={execute:?},dry_run=true)"), fx);
+                }
+            }
         }
         // stride larger than the thread: nothing is plannable => real (non-dry) calls are no-ops
         let _ = store.compaction_auto_v1(t, CompactionAutoV1Request { stride_messages: Some(1_000_000), max_new_checkpoints: Some(1), dry_run: Some(false), actor_id: "u".into(), origin: "o".into() });
@@ -150,6 +154,9 @@ fn check_history(report: &Report, rt: &Arc<tokio::runtime::Runtime>, hist: &[H],
         ripd::verif_export::VerifApp::new(fx.engine.clone(), false)
     };
     let mut router = app.router();
+    // a second writer handle on the same log, opened now and used after the history (an outgoing
+    // authority finishing an append after its successor has written): appends must land at the end
+    let outgoing = rip_log::EventLog::new(fx.log_path()).expect("second handle");
     for (i, op) in hist.iter().enumerate() {
         let before_log = fx.log_bytes();
         let before_tree = tree_hashes(&fx);
@@ -193,6 +200,24 @@ fn check_history(report: &Report, rt: &Arc<tokio::runtime::Runtime>, hist: &[H],
             return;
         }
     }
+    {
+        let before = fx.log_bytes();
+        let sid = uuid::Uuid::new_v4().to_string();
+        let ev = rip_kernel::Event { id: uuid::Uuid::new_v4().to_string(), session_id: sid, timestamp_ms: 1, seq: 0, kind: rip_kernel::EventKind::SessionStarted { input: "from the outgoing handle".into() } };
+        let res = outgoing.append(&ev);
+        let after = fx.log_bytes();
+        if let Err(msg) = check_suffix(&before, &after) {
+            report.violation("C02:not_append_only:second_writer_handle", case_json(hist, hist.len(), json!({"append_result": format!("{res:?}")})), &format!("one frame appended through a writer handle that was opened before the history: {msg}"));
+            return;
+        }
+        // ... and the engine's own handle afterwards
+        let before = fx.log_bytes();
+        let _ = fx.store().append_message(&thread, "u".into(), "o".into(), "after the outgoing handle".into());
+        if let Err(msg) = check_suffix(&before, &fx.log_bytes()) {
+            report.violation("C02:not_append_only:after_second_writer_handle", case_json(hist, hist.len(), json!({})), &format!("an append by the engine after another handle wrote: {msg}"));
+            return;
+        }
+    }
     // same with the caches dropped (rebuild paths) and after a restart
     fx.drop_caches();
     if let Some((what, a, b)) = read_only_set(&fx, &thread, Some(&router), false) {
@@ -214,18 +239,15 @@ pub fn run(opts: Opts) -> i32 {
     let report = Report::new("C02", "exploration", opts.clone());
     report.set_rule(
         "every history of <=3 (quick) / <=4 (thorough) ops from {message, answered run, open run, run_ended, side effects, cursor set, \
-         cursor rotate, selection pair, manual checkpoint at a boundary / at a non-boundary (refused), auto compaction, schedule, branch, \
+         cursor rotate, selection pair, manual checkpoint at a boundary / at a non-boundary (refused), auto compaction, schedule, a summarizer job left in flight, branch, \
          handoff, drop caches, restart}; after every step: byte-prefix + whole-line JSON suffix + only cache/snapshot/.rip files changed; \
          in every reached state the read-only set (replay, cut points over stride x limit domains, status, cursor status, no-match rotate, \
-         selection status, list/get, dry-run and nothing-plannable auto/schedule, stride 0, unknown / hostile thread ids incl. '../events', \
-         and GET routes incl. the three SSE handlers and /config/doctor) must add zero bytes, also with caches dropped and after restart; \
+         selection status, list/get, dry-run (x block_on_inflight x execute) and nothing-plannable auto/schedule, stride 0, unknown / hostile thread ids incl. '../events', \
+         and GET routes incl. the three SSE handlers and /config/doctor) must add zero bytes, also with caches dropped and after restart; after the history one frame is appended through a \
+         second writer handle opened before it, then one by the engine (both must land at the end); \
          distinct = history",
     );
     report.assume("frames appended by a *failing* operation are information only (the property bounds what is written, not whether a failing op may log)");
-    if let Some(path) = &opts.replay {
-        let case = crate::common::load_replay_case(path);
-        println!("replay: re-run with the same history via the enumeration (history {})", case["history"]);
-    }
     let tier = report.tier();
     let alphabet: Vec<H> = vec![
         H::Msg,
@@ -240,11 +262,21 @@ pub fn run(opts: Opts) -> i32 {
         H::Ckpt(3),
         H::Auto { stride: 1, max_new: 2, dry: false },
         H::Sched { stride: 1, max_new: 1, block: true, execute: true, dry: false },
+        H::SpawnJobOnly { stride: 1 },
         H::Branch(0),
         H::Handoff(0),
         H::DropCaches,
         H::Restart,
     ];
+    if let Some(path) = &opts.replay {
+        let case = crate::common::load_replay_case(path);
+        let hist: Vec<H> = case["history"].as_array().map(|a| a.iter().filter_map(|v| alphabet.iter().find(|h| name(h) == v.as_str().unwrap_or("")).cloned()).collect()).unwrap_or_default();
+        println!("replay: history {:?}", hist.iter().map(name).collect::<Vec<_>>());
+        let rt = new_rt();
+        check_history(&report, &rt, &hist, true);
+        report.eval(Some(&"replay"));
+        return report.finish();
+    }
     let hs = sequences(&alphabet, tier.pick(3, 4));
     report.set_extra("histories", json!(hs.len()));
     report.sample(json!({"history": hs[20].iter().map(name).collect::<Vec<_>>()}));
